@@ -21,6 +21,7 @@ COUNT = {"quick": 8000, "thorough": None}
 BUDGET = {"quick": 45, "thorough": 600}
 CHUNK = 4000
 RULE = (
+    'Kept-object stratum (index%14==5): one EnsembleEvaluator object answers 2-4 requests at one point while the set of failing realizations changes from request to request. '
     "even indices: small-ensemble stratum - (R,P) cycles over {1..Rmax}x{1..Pmax} (max 2 quick / 3 thorough) and the "
     "failure mask over the R*(P+1) cells (realization x {unperturbed, perturbation k}) is the binary expansion of the "
     "stratum counter (every mask is reached once the counter passes 2^(R(P+1))); the NaN column, both thresholds "
